@@ -242,3 +242,67 @@ class Walker:
                 self._register(self._name_of(path))
                 parsed.append(path)
         return parsed
+
+
+def ok_links_established_once(modules: set[str]) -> set[tuple[str, str]]:
+    # the key is the link itself: what is skipped for a repeated link is determined by the link alone
+    established: set[tuple[str, str]] = set()
+    edges: list[tuple[str, str, bool]] = []
+    for module in modules:
+        parts = module.split(".")
+        parent = parts[0]
+        for child in parts[1:]:
+            link = (parent, child)
+            if link not in established:
+                established.add(link)
+                start = parent
+                end = child
+                edges.append((start, end, True))
+            parent = child
+    return set(edges)
+
+
+def bad_links_established_by_parent_only(modules: set[str]) -> set[tuple[str, str]]:
+    # only the first child seen for a parent gets its link
+    established: set[str] = set()
+    edges: list[tuple[str, str]] = []
+    for module in modules:
+        parts = module.split(".")
+        parent = parts[0]
+        for child in parts[1:]:
+            if parent not in established:
+                established.add(parent)
+                edges.append((parent, child))
+            parent = child
+    return set(edges)
+
+
+def ok_compiled_pattern_memo(patterns: set[str], names: list[str]) -> list[str]:
+    import re
+
+    compiled: dict[str, re.Pattern[str]] = {}
+    matched = []
+    for name in names:
+        for pattern in patterns:
+            if pattern not in compiled:
+                compiled[pattern] = re.compile(pattern)
+            if compiled[pattern].match(name) is None:
+                continue
+            matched.append(name)
+    return sorted(matched)
+
+
+def bad_compiled_pattern_memo_keyed_loosely(patterns: set[str], names: list[str]) -> list[str]:
+    import re
+
+    compiled: dict[str, re.Pattern[str]] = {}
+    matched = []
+    for name in names:
+        for pattern in patterns:
+            key = pattern.lower()
+            if key not in compiled:
+                compiled[key] = re.compile(pattern)
+            if compiled[key].match(name) is None:
+                continue
+            matched.append(name)
+    return sorted(matched)
